@@ -302,10 +302,15 @@ fn dist_to_arc(a: V3, b: V3, p: V3) -> f64 {
 // ---------------------------------------------------------------- planar polygons
 pub fn shoelace(poly: &[P2]) -> f64 {
     let n = poly.len();
+    if n < 3 {
+        return 0.0;
+    }
+    // relative to the first vertex, so that tiny polygons far from the origin keep their precision
+    let o = poly[0];
     let mut a = 0.0;
     for i in 0..n {
-        let p = poly[i];
-        let q = poly[(i + 1) % n];
+        let p = [poly[i][0] - o[0], poly[i][1] - o[1]];
+        let q = [poly[(i + 1) % n][0] - o[0], poly[(i + 1) % n][1] - o[1]];
         a += p[0] * q[1] - q[0] * p[1];
     }
     0.5 * a
